@@ -15,6 +15,7 @@ from .common import run, absval
 PROPERTY = "C14"
 LEVEL = "other"
 KEY = "c14.absolute_residual_success"
+KEY_VEC = "c14.vec_unbracketed_result"
 EPS64 = float(np.finfo(np.float64).eps)
 TOL_MIN = 4 * EPS64          # = D.epsilon(float64), the floor the code applies to tol
 TOL_MAX = 1e-3
@@ -262,7 +263,11 @@ def _bracket(c, inst, tol, suffix=""):
     w = c.real("w" + suffix)
     c.assume(a >= -1)
     c.assume(a <= 1)
-    c.assume(w != 0)
+    ws = inst.get("wsign")
+    if ws:
+        c.assume(w > 0 if ws > 0 else w < 0)
+    else:
+        c.assume(w != 0)
     K = float(2 ** inst["k"])
     c.assume(w <= K * tol)
     c.assume(w >= -K * tol)
@@ -290,18 +295,20 @@ def _rho(c, name, variant):
     return rho
 
 
-def _make_fn(c, inst, a, w, idx=0, scale=None):
+def _make_fn(c, inst, a, w, idx=0, scale=None, root=None):
     fam = inst["family"]
     sfx = "" if idx == 0 else "_%d" % idx
     if scale is None:
         scale = inst["scale"]
+    if root is None:
+        root = inst["root"]
     if fam == "linear":
         if scale == "sym":
             s = c.real("s" + sfx)
             c.assume(c.any([c.all([s >= 1e-6, s <= 1e9]), c.all([s <= -1e-6, s >= -1e9])]))
         else:
             s = float(scale)
-        rho = _rho(c, "rho" + sfx, inst["root"])
+        rho = _rho(c, "rho" + sfx, root)
         return Linear(c, s, a + rho * w)
     if fam == "jump":
         T = c.real("T" + sfx)
@@ -310,7 +317,7 @@ def _make_fn(c, inst, a, w, idx=0, scale=None):
         c.assume(T <= 1e9)
         c.assume(lam > 0)
         c.assume(lam < 1)
-        rho = _rho(c, "rho" + sfx, inst["root"])
+        rho = _rho(c, "rho" + sfx, root)
         return Jump(c, T * lam, T * (1 - lam), a + rho * w, ite=bool(inst.get("ite")))
     if fam == "quadratic":
         s = float(scale)
@@ -318,7 +325,7 @@ def _make_fn(c, inst, a, w, idx=0, scale=None):
         c.assume(r1 < r2)
         c.assume(r1 >= -4)
         c.assume(r2 <= 5)
-        v = inst["root"]
+        v = root
         in1 = c.all([r1 >= 0, r1 <= 1])
         in2 = c.all([r2 >= 0, r2 <= 1])
         if v == "one-inside":
@@ -418,6 +425,7 @@ def _vector(c, inst, n, tol_arg, tol):
     from desolver.utilities import optimizer as opt
     shared = inst.get("bounds", "shared") == "shared"
     scales = inst["scale"] if isinstance(inst["scale"], list) else [inst["scale"]] * n
+    roots = inst["root"] if isinstance(inst["root"], list) else [inst["root"]] * n
     brs, fns = [], []
     for i in range(n):
         if shared and i > 0:
@@ -425,7 +433,7 @@ def _vector(c, inst, n, tol_arg, tol):
         else:
             a, w = _bracket(c, inst, tol, "" if i == 0 else "_%d" % i)
         brs.append((a, w))
-        fns.append(_make_fn(c, inst, a, w, idx=i, scale=scales[i]))
+        fns.append(_make_fn(c, inst, a, w, idx=i, scale=scales[i], root=roots[i]))
     if shared:
         lb, ub = brs[0][0], brs[0][0] + brs[0][1]
         if not c.symbolic:
@@ -454,19 +462,152 @@ def _vector(c, inst, n, tol_arg, tol):
         xs, oks, _, _ = res
         fa, fb = fn.val(a), fn.val(b)
         bracketed = c.lt(fa * fb, 0)
+        same_ok = _iff(c, ok, oks)
         if _finite(xs):
             same_x = c.eq(x, xs)
+            region = False
         else:
+            # scalar answer (inf, False).  Known finding: the vector solver does not iterate on a bracket without sign
+            # change and hands back the end point with the smaller |f| and flag = (|f| <= tol)
             same_x = False
-        same_ok = _iff(c, ok, oks)
+            small = c.le(absval(c, fn.val(x)), tol)
+            region = c.all([oks is False, c.le(0, fa * fb), c.any([c.eq(x, a), c.eq(x, b)]), _iff(c, ok, small)])
         c.check("c14.vec.agrees_with_scalar.bracketed", _implies(c, bracketed, c.all([same_x, same_ok])))
-        c.check("c14.vec.agrees_with_scalar.success_flag", same_ok)
-        c.check("c14.vec.agrees_with_scalar.point", same_x)
+        c.check("c14.vec.agrees_with_scalar.success_flag", same_ok, regions={KEY_VEC: region})
+        c.check("c14.vec.agrees_with_scalar.point", same_x, regions={KEY_VEC: region})
 
 
 # ----------------------------------------------------------------------------------------------------------------------
-# floating-point lemma (QF_FP)
+# floating-point lemma (QF_FP): the acceptance predicate of the return statement, bit-precise
+#
+#   for all floats s, d (|s| <= 1000) and ADJACENT floats x0 < x1 in (0.5, 2):
+#       fl(s*x0 - d) < 0 < fl(s*x1 - d)   =>   |fl(s*x0 - d)| <= tol  or  |fl(s*x1 - d)| <= tol        (tol = 4*eps(dtype))
+#
+# i.e. "a sign change bracketed to the last bit is accepted by `abs(f(b)) <= tol`".  z3 decides the negation; sat = the float
+# form of the known finding (no representable point can meet the success test).
+
+FP_FORMATS = {"float16": (5, 11), "float32": (8, 24), "float64": (11, 53)}
+FP_CHECK = "c14.fp.sign_change_between_adjacent_floats_is_accepted"
+
+
+def _fp_query(dtype, timeout_s):
+    """('sat', dict(x0=, s=, d=) exact Fractions) | ('unsat', None) | ('unknown', None)"""
+    import z3
+    eb, sb = FP_FORMATS[dtype]
+    npdt = np.dtype(dtype)
+    F = z3.FPSort(eb, sb)
+    rm = z3.RNE()
+    nb = eb + sb
+    sv, dv = z3.FP("s", F), z3.FP("d", F)
+    x0, x1 = z3.FP("x0", F), z3.FP("x1", F)
+    bx = z3.fpToIEEEBV(x0)
+    adjacent = z3.fpToIEEEBV(x1) == bx + 1      # next float up: both are positive normal numbers in (0.5, 2)
+    tol = z3.FPVal(float(np.finfo(npdt).eps) * 4, F)
+    r0 = z3.fpSub(rm, z3.fpMul(rm, sv, x0), dv)
+    r1 = z3.fpSub(rm, z3.fpMul(rm, sv, x1), dv)
+    sol = z3.SolverFor("QF_FP")
+    sol.set("timeout", int(timeout_s * 1000))
+    sol.add(adjacent, z3.fpGT(x0, z3.FPVal(0.5, F)), z3.fpLT(x1, z3.FPVal(2.0, F)))
+    sol.add(z3.fpLEQ(sv, z3.FPVal(1000.0, F)), z3.fpGEQ(sv, z3.FPVal(-1000.0, F)))
+    sol.add(z3.Not(z3.fpIsNaN(dv)), z3.Not(z3.fpIsInf(dv)))
+    sol.add(z3.fpLT(r0, z3.fpNeg(tol)), z3.fpGT(r1, tol))
+    r = sol.check()
+    if r == z3.unsat:
+        return "unsat", None
+    if r != z3.sat:
+        return "unknown", None
+    m = sol.model()
+    uint = {16: np.uint16, 32: np.uint32, 64: np.uint64}[nb]
+
+    def val(bits_expr):
+        bits = m.eval(bits_expr, model_completion=True).as_long()
+        return Fraction(float(np.array([bits], dtype=uint).view(npdt)[0]))
+    return "sat", dict(x0=val(bx), s=val(z3.fpToIEEEBV(sv)), d=val(z3.fpToIEEEBV(dv)))
+
+
+def _fp_real_code(dt, s, d, x0):
+    """run the real brentsroot in dtype dt on f(x) = s*x - d; True iff the sign change is bracketed by the adjacent floats
+    x0 < x1, both residuals exceed tol, and the solver reports failure on [x0, x1] as well as on [1/2, 2]"""
+    import warnings
+    from desolver.utilities import optimizer as opt
+    from desolver import backend as D
+    s, d, x0 = dt(s), dt(d), dt(x0)
+    x1 = np.nextafter(x0, dt(np.inf))
+    tol = D.epsilon(np.dtype(dt))
+
+    def f(x):
+        return s * x - d
+    f0, f1 = f(x0), f(x1)
+    out = dict(dtype=np.dtype(dt).name, s=float(s), d=float(d), x0=float(x0), x1=float(x1), f_x0=float(f0), f_x1=float(f1), tol=float(tol))
+    if not (f0 < -tol and f1 > tol):
+        out["defect"] = False
+        return out
+    with warnings.catch_warnings():
+        warnings.simplefilter("ignore")
+        xa, oka = opt.brentsroot(f, [x0, x1])
+        xb, okb = opt.brentsroot(f, [dt(0.5), dt(2.0)])
+    out.update(narrow=dict(x=float(xa), success=bool(oka)), wide=dict(x=float(xb), success=bool(okb)))
+    out["defect"] = (not bool(oka)) and (not bool(okb)) and float(xb) in (float(x0), float(x1))
+    return out
+
+
+def _fp_transport_float64(s, x_start, span=4096):
+    """float64 instance of the lemma with the witness slope: scan adjacent float64 pairs for one whose images fl(s*x) lie
+    two or more ulps apart and put d in the middle"""
+    dt = np.float64
+    tol = 4 * EPS64
+    for mult in (1.0, 2.0, 4.0, 8.0, 16.0, 32.0, 64.0):
+        sv = dt(s) * dt(mult)
+        if abs(sv) > 1000 or sv == 0:
+            break
+        x0 = dt(x_start)
+        for _ in range(span):
+            x1 = np.nextafter(x0, dt(np.inf))
+            if not (0.5 < x0 and x1 < 2.0):
+                break
+            y0, y1 = sv * x0, sv * x1
+            d = (y0 + y1) / 2
+            if (y0 - d) < -tol and (y1 - d) > tol:
+                return float(sv), float(d), float(x0)
+            x0 = x1
+    return None
 
 
 def _fp_lemma(c, inst):
-    raise NotImplementedError
+    dtype = inst["dtype"]
+    if c.symbolic:
+        from srx import core
+        status, wit = _fp_query(dtype, inst.get("timeout_s", 60))
+        c.note("qf_fp_result", status)
+        if status == "unknown":
+            raise core.BudgetHit("qf_fp_unknown")      # inconclusive, never success
+        if status == "unsat":
+            c.check(FP_CHECK, True)
+            c.note("qf_fp", "no counterexample in %s" % dtype)
+            return
+        c.note("qf_fp_witness", {k: float(v) for k, v in wit.items()})
+        for k, v in wit.items():            # hand the bit-precise witness to the float replay through the path inputs
+            c.assume(c.eq(c.real(k), v))
+        c.check(FP_CHECK, False, info=dict(dtype=dtype, witness={k: str(v) for k, v in wit.items()}), regions={KEY: True})
+        return
+    # float replay: the real code in the lemma's dtype, then the same slope transported to float64
+    dt = np.dtype(dtype).type
+    s, d, x0 = c.real("s"), c.real("d"), c.real("x0")
+    own = _fp_real_code(dt, s, d, x0)
+    c.note("real_code_" + dtype, own)
+    t = _fp_transport_float64(s, x0)
+    f64 = _fp_real_code(np.float64, *t) if t is not None else dict(defect=False, note="no float64 instance found near the witness")
+    c.note("real_code_float64", f64)
+    c.check(FP_CHECK, not (own["defect"] or f64["defect"]))
+
+
+REPLAY_TOL = 4 * EPS64
+
+
+def replay(inst, witness, check_name):
+    """float replay with a tolerance of a few ulps (the default 256*eps would swamp tol = 4*eps)"""
+    from srx.explorer import ConcreteCtx
+    cc = ConcreteCtx(witness, tol=REPLAY_TOL)
+    scenario(cc, inst)
+    return dict(reproduced=check_name in cc.failed, failed=sorted(set(cc.failed)),
+                notes={k: repr(v)[:600] for k, v in cc.notes.items()})
